@@ -1,5 +1,7 @@
 import Sonic.Model.Itoa
 import Sonic.Spec.Decimal
+import Sonic.Spec.Rne
+import Sonic.Model.Quote
 
 /-!
 # Line-protocol driver (`sonic_model`)
@@ -32,8 +34,9 @@ def hexOf (bs : List Nat) : String :=
   let hd (n : Nat) : Char := if n < 10 then Char.ofNat (48 + n) else Char.ofNat (87 + n)
   String.ofList (bs.foldr (fun b acc => hd (b / 16 % 16) :: hd (b % 16) :: acc) [])
 
-def step (line : String) : String :=
-  match line.trimAscii.toString.splitOn " " with
+/-- pure (stateless) commands implemented in this file -/
+def stepLocal (toks : List String) : String :=
+  match toks with
   | ["u64toa", n] =>
     match n.toNat? with
     | some v => if v < 2 ^ 64 then
@@ -46,21 +49,44 @@ def step (line : String) : String :=
         let r := Sonic.Model.Itoa.i64toa Sonic.Model.Itoa.zeroBuf 0 v
         s!"{hexOf (Sonic.Model.Itoa.slice r.buf 0 r.out)} ext={r.ext} spec={hexOf (Sonic.Spec.decimalI64 v)}" else "bad-op"
     | none => "bad-op"
+  | ["rne", neg, m, e] =>
+    match m.toNat?, e.toInt? with
+    | some mv, some ev =>
+      match Sonic.Spec.Rne.round (neg == "1") mv ev with
+      | some b => toString b
+      | none => "inf"
+    | _, _ => "bad-op"
   | ["spec-decimal", n] =>
     match n.toNat? with
     | some v => hexOf (Sonic.Spec.decimal v)
     | none => "bad-op"
   | _ => "bad-op"
 
-partial def loop (h : IO.FS.Stream) (out : IO.FS.Stream) : IO Unit := do
-  let line ← h.getLine
-  if line.isEmpty then return ()
-  out.putStrLn (step line)
-  loop h out
+/-- state of the stateful sub-protocols (pool, dom, …); `W` = vector width of the build being mirrored -/
+structure DState where
+  W : Nat := 32
 
-def main : IO Unit := do
+def step (st : DState) (line : String) : DState × String :=
+  let toks := (line.trimAscii.toString.splitOn " ").filter (· ≠ "")
+  match toks with
+  | "quote" :: _ => (st, Sonic.Model.Quote.runLine st.W toks)
+  | _ => (st, stepLocal toks)
+
+partial def loop (h : IO.FS.Stream) (out : IO.FS.Stream) (st : DState) : IO Unit := do
+  let line ← h.getLine
+  if line.isEmpty then
+    out.flush
+    return ()
+  let (st', o) := step st line
+  out.putStrLn o
+  loop h out st'
+
+def main (args : List String) : IO Unit := do
   let stdin ← IO.getStdin
   let stdout ← IO.getStdout
-  loop stdin stdout
+  let w := match args with
+    | a :: _ => (a.toNat?).getD 32
+    | [] => 32
+  loop stdin stdout { W := w }
 
 end Sonic.Driver
